@@ -140,6 +140,102 @@ class Interp:
                 break
         return out
 
+    # ------------------------------------------------------------ mod sets
+    MUTATING_EXTERNALS = ('std::vec::Vec::<T, A>::push', 'std::collections::BTreeMap::<K, V, A>::insert',
+                          'std::collections::BTreeMap::<K, V, A>::remove', 'std::mem::replace', 'std::mem::swap',
+                          'std::option::Option::<T>::take', 'std::io::Read::read_exact', 'std::string::String::push_str',
+                          'std::mem::take')
+
+    def modset(self, fname, _stack=None):
+        """(frozenset of (owner, field) that `fname` may store to, transitively; unknown flag)"""
+        cache = self.__dict__.setdefault('_modsets', {})
+        if fname in cache:
+            return cache[fname]
+        _stack = _stack or set()
+        if fname in _stack:
+            return (frozenset(), False)
+        fn = self.fns.get(fname)
+        if fn is None:
+            return (frozenset(), False)
+        _stack = _stack | {fname}
+        fields = set()
+        unknown = False
+
+        def add_place(p):
+            pr = p['proj']
+            if not any(e['k'] == 'deref' for e in pr):
+                return
+            last = None
+            for e in pr:
+                if e['k'] == 'field' and e['owner']:
+                    last = (e['owner'], e['name'])
+            if last:
+                fields.add(last)
+
+        def ref_origin(local):
+            for b in fn['blocks']:
+                for st_ in b['stmts']:
+                    if st_['k'] == 'assign' and st_['place']['local'] == local and not st_['place']['proj']:
+                        rv = st_['rv']
+                        if rv['k'] in ('ref', 'rawptr'):
+                            return rv['place']
+                        if rv['k'] == 'use' and rv['op']['k'] in ('copy', 'move') and not rv['op']['place']['proj']:
+                            return ref_origin(rv['op']['place']['local']) if rv['op']['place']['local'] != local else None
+            return None
+        for b in fn['blocks']:
+            if b['cleanup']:
+                continue
+            for st_ in b['stmts']:
+                if st_['k'] in ('assign', 'setdiscr'):
+                    add_place(st_['place'])
+            t = b['term']
+            if t['k'] != 'call':
+                continue
+            add_place(t['dest'])
+            names = list(t['impls']) if t['ckind'] == 'virtual' else [t['resolved'] or t['callee']]
+            for n in names:
+                if n in self.fns:
+                    f2, u2 = self.modset(n, _stack)
+                    fields |= f2
+                    unknown = unknown or u2
+                elif any(n.startswith(m) for m in self.MUTATING_EXTERNALS):
+                    a0 = t['args'][0] if t['args'] else None
+                    origin = None
+                    if a0 and a0['k'] in ('copy', 'move') and not a0['place']['proj']:
+                        origin = ref_origin(a0['place']['local'])
+                    if origin is not None and any(e['k'] == 'field' and e['owner'] for e in origin['proj']):
+                        last = [(e['owner'], e['name']) for e in origin['proj'] if e['k'] == 'field' and e['owner']][-1]
+                        fields.add(last)
+                    elif origin is not None and not any(e['k'] == 'deref' for e in origin['proj']):
+                        pass  # a local of this function
+                    else:
+                        unknown = True
+                elif not n:
+                    unknown = True   # indirect call
+        res = (frozenset(fields), unknown)
+        cache[fname] = res
+        return res
+
+    def wrap_havoc(self, st, fields, unknown, tag):
+        """field-sensitive havoc of every known object: fields in `fields` (or everything when unknown) are forgotten"""
+        tbl = self.__dict__.setdefault('_havtbl', [])
+        key = (frozenset(fields), unknown)
+        if key in tbl:
+            mid = tbl.index(key)
+        else:
+            tbl.append(key)
+            mid = len(tbl) - 1
+        for root in list(st.mem.keys()):
+            if root[0] != 'O':
+                continue
+            if root[1].startswith('constalloc#') or root[1].startswith('strlit:'):
+                continue
+            cur = st.mem[root]
+            if cur is None:
+                continue
+            st.n['sym'] += 1
+            st.mem[root] = ('hav', cur, mid, '%s@%d:%s' % (tag, st.n['sym'], root[1]))
+
     # ------------------------------------------------------------- loops
     def loops_of(self, fname):
         """natural loops of a function: head bb -> set of body blocks"""
@@ -202,44 +298,60 @@ class Interp:
         return loops
 
     def havoc_loop(self, st, fr, head):
-        """forget everything the loop headed at `head` may modify (sound summary of 0..n iterations)"""
+        """forget everything the loop headed at `head` may modify (sound summary of 0..n iterations):
+        locals assigned in the body, and - field-sensitively - every (struct, field) stored by the body or its callees"""
         fn = fr.fn
         body = self.loops_of(fr.fname)[head]
-        tag = '%s:bb%d' % (fr.fname.split('::')[-1], head)
+        tag = 'loop(%s:bb%d)' % (fr.fname.split('::')[-1], head)
+        fields = set()
+        unknown = False
         for b in sorted(body):
             blk = fn['blocks'][b]
             places = []
             for s in blk['stmts']:
                 if s['k'] == 'assign':
-                    places.append((s['place'], s['rv']))
+                    places.append(s['place'])
             t = blk['term']
             if t['k'] == 'call':
-                places.append((t['dest'], None))
-                for a in t['args']:
-                    if a['k'] in ('copy', 'move'):
-                        try:
-                            v = self.operand(st, fr, a)
-                        except Abort:
-                            v = None
-                        self._havoc_reachable(st, v, tag)
-            for p, rv in places:
-                if rv is not None and rv['k'] in ('ref', 'rawptr') and (rv['k'] == 'rawptr' or rv.get('mut')):
-                    pass
+                places.append(t['dest'])
+                names = list(t['impls']) if t['ckind'] == 'virtual' else [t['resolved'] or t['callee']]
+                for n in names:
+                    if n in self.fns:
+                        f2, u2 = self.modset(n)
+                        fields |= f2
+                        unknown = unknown or u2
+                    elif any(n.startswith(m) for m in self.MUTATING_EXTERNALS):
+                        a0 = t['args'][0] if t['args'] else None
+                        v = None
+                        if a0 is not None and a0['k'] in ('copy', 'move'):
+                            try:
+                                v = self.operand(st, fr, a0)
+                            except Abort:
+                                v = None
+                        if v is not None and v[0] == 'ref' and v[1][0] == 'L':
+                            st.mem[v[1]] = S(0, 'loopvar:%s:%s' % (tag, v[1][2]))
+                        elif v is not None and v[0] == 'ref' and v[2]:
+                            last = [e for e in v[2] if e[0] == 'f']
+                            if last:
+                                fields.add((last[-1][4], last[-1][2]))
+                            else:
+                                unknown = True
+                        else:
+                            unknown = True
+            for p in places:
                 has_deref = any(e['k'] == 'deref' for e in p['proj'])
                 if not has_deref:
                     root = ('L', fr.uid, p['local'])
                     ty = fn['locals'][p['local']]['ty']
                     cur = st.mem.get(root)
                     if cur is not None and cur[0] in ('ref', 'slice', 'fn'):
-                        # pointer-valued temporaries are recomputed inside the body before use
                         continue
                     st.mem[root] = S(type_bits(ty), 'loopvar:%s:_%d' % (tag, p['local']))
                 else:
-                    try:
-                        root, path, view = self.resolve_place(st, fr, p)
-                    except Abort:
-                        continue
-                    self._havoc_root(st, root, tag)
+                    last = [(e['owner'], e['name']) for e in p['proj'] if e['k'] == 'field' and e['owner']]
+                    if last:
+                        fields.add(last[-1])
+        self.wrap_havoc(st, fields, unknown, tag)
 
     def _havoc_root(self, st, root, tag):
         if root[0] == 'O':
@@ -288,6 +400,37 @@ class Interp:
                 if ci is not None and ci < len(fields):
                     return fields[ci]
                 return st.fresh(type_bits(elem[2]) if len(elem) > 2 else 8, 'elem')
+        if vk == 'hav':
+            old, mid, name = v[1], v[2], v[3]
+            fields, unknown = self._havtbl[mid]
+            if k == 'f':
+                fname, ty, owner = elem[2], elem[3], elem[4]
+                bits = type_bits(ty)
+                if unknown or (owner, fname) in fields:
+                    return S(bits, name + '.' + fname, ('field', owner, fname, ty))
+                sub = self.project(st, old, elem)
+                if sub is None:
+                    return S(bits, name + '.' + fname, ('field', owner, fname, ty))
+                if is_int(sub) or sub[0] in ('fn', 'str', 'unit'):
+                    return sub
+                if sub[0] in ('ref', 'slice'):
+                    return sub     # the pointer itself is unchanged; its pointee is wrapped separately
+                if sub[0] == 's' and sub[1] == 0 and ('*' in ty or '&' in ty or ty.startswith('std::boxed::Box')
+                                                      or ty.startswith('std::ptr')):
+                    return sub
+                return ('hav', sub, mid, name + '.' + fname)
+            if k == 'd':
+                sub = self.project(st, old, elem)
+                return ('hav', sub, mid, name + '#' + str(elem[2])) if sub is not None else None
+            if k == 'i':
+                if unknown:
+                    return st.fresh(type_bits(elem[2]) if len(elem) > 2 else 8, 'elem')
+                sub = self.project(st, old, elem)
+                if sub is None or is_int(sub):
+                    # element contents of buffers are not tracked across a havoc
+                    return st.fresh(type_bits(elem[2]) if len(elem) > 2 else 8, 'elem')
+                return ('hav', sub, mid, name + '[]')
+            return None
         if vk == 'snap':
             base, ov = v[1], v[2]
             key = self._ekey(st, elem)
@@ -409,6 +552,12 @@ class Interp:
             root = ('O', ptr[2])
             if root not in st.mem:
                 st.mem[root] = S(0, '*' + ptr[2], ('pointee', ptr[2]))
+            return root, (), None
+        if k == 'hav':
+            return self.deref(st, ptr[1])
+        if k == 'str':
+            root = ('O', 'strlit:' + ptr[1])
+            st.mem[root] = ptr
             return root, (), None
         raise Abort('deref of non-pointer %s' % fmt(ptr))
 
@@ -554,6 +703,8 @@ class Interp:
         if v[0] == 's':
             return S(bits, 'discr(%s)' % v[2], ('discr', v[2]))
         if v[0] == 'snap' and v[1] is not None:
+            return self.discriminant(st, v[1], bits)
+        if v[0] == 'hav':
             return self.discriminant(st, v[1], bits)
         return st.fresh(bits, 'discr')
 
@@ -917,9 +1068,9 @@ class Interp:
         if callee in self.opaque:
             ret = T.UNIT if dest_ty == '()' else st.fresh(type_bits(dest_ty), 'ret:' + callee.split('::')[-1])
             st.events.append(('call', callee, tuple(args), ret, site))
-            for i in self.opaque_havoc.get(callee, ()):
-                if i < len(args):
-                    self.havoc_pointee(st, args[i])
+            if callee in self.opaque_havoc:
+                f2, u2 = self.modset(callee)
+                self.wrap_havoc(st, f2, u2, 'call(%s)' % callee.split('::')[-1])
             yield (ret, st, 'ok', None)
             return
         if callee in self.fns:
@@ -934,7 +1085,7 @@ class Interp:
             yield from model(self, st, fr, t, args, site, dest_ty)
             return
         # unknown external callee: havoc what it may write, return a fresh symbol
-        st.events.append(('extcall', callee, tuple(args), site))
+        st.events.append(('extcall', callee, tuple(args), site, snapshot_args(self, st, args)))
         for a in args:
             self.havoc_pointee(st, a, t)
         ret = T.UNIT if dest_ty == '()' else st.fresh(type_bits(dest_ty), 'ext:' + callee.split('::')[-1])
@@ -1289,6 +1440,19 @@ def m_pure(name, bits=None):
         st.events.append(('pure', t['resolved'], tuple(args), ret, site))
         yield (ret, st, 'ok', None)
     return f
+
+
+def as_str(ip, st, v):
+    """text of a string-literal value or of a reference to one, else None"""
+    if v is None:
+        return None
+    if v[0] == 'str':
+        return v[1]
+    if v[0] == 'ref':
+        t = ip.read(st, v[1], v[2])
+        if t is not None and t[0] == 'str':
+            return t[1]
+    return None
 
 
 def snapshot_args(ip, st, args):
